@@ -58,6 +58,11 @@ def qbytes_int8pack_mm(activations: torch.Tensor, weights: torch.Tensor, output_
     # and contiguous activations and weights
     activations = activations.contiguous()
     weights = weights.contiguous()
+    # in a 16-byte aligned storage (a tensor mapped from a file is dense but not aligned, and contiguous() returns it as it is)
+    if activations.data_ptr() % 16 != 0:
+        activations = activations.clone()
+    if weights.data_ptr() % 16 != 0:
+        weights = weights.clone()
     if activations.ndim == 2:
         return torch._weight_int8pack_mm(activations, weights, output_scales)
     else:
